@@ -203,3 +203,58 @@ package blockstore
 //@   site[stores_what_was_kept] invoke:Blockstore.PutMany : arg0 == b.bs && arg2 == toPut
 //@   site[never_stores_an_identity_block] invoke:Blockstore.Put : !isIdentity(blockCid(arg2))
 //@   ensures[goes_through_the_filter] err == nil ==> called("invoke:Blockstore.PutMany#0")
+
+// ---- C02 (sequential part): the Bloom layer answers on its own only "absent", and records every
+// successful put --------------------------------------------------------------------------------
+//@ func ext (*github.com/ipfs/bbloom.Bloom).HasTS
+//@ func ext (*github.com/ipfs/bbloom.Bloom).AddTS
+//@ func (*bloomcache).BloomActive
+//@   assumed
+//@ func (*bloomcache).hasCached
+//@   prop C02
+//@   arith int
+//@   requires b != nil
+//@   modifies all
+//@   ensures[only_absence_is_conclusive] ok ==> !has
+//@   ensures[conclusive_only_from_an_active_filter_that_says_no] ok ==> called("call:BloomActive#0") && res("call:BloomActive#0", 0) && called("call:HasTS#0") && !res("call:HasTS#0", 0)
+//@   site[asks_about_the_multihash] call:HasTS : arg1 == cidHash(k)
+//@ func (*bloomcache).Has
+//@   prop C02
+//@   arith int
+//@   requires b != nil
+//@   modifies all
+//@   ensures[inner_store_decides_unless_conclusively_absent] !(res("call:bloomcache.hasCached#0", 1)) ==> called("invoke:Blockstore.Has#0") && result0 == res("invoke:Blockstore.Has#0", 0) && err == res("invoke:Blockstore.Has#0", 1)
+//@   ensures[conclusive_answer_is_absent] res("call:bloomcache.hasCached#0", 1) ==> !result0 && err == nil
+//@   site[asks_for_k] invoke:Blockstore.Has : arg0 == b.blockstore && arg2 == k
+//@ func (*bloomcache).Get
+//@   prop C02
+//@   arith int
+//@   requires b != nil
+//@   modifies all
+//@   ensures[inner_store_decides_unless_conclusively_absent] !(res("call:bloomcache.hasCached#0", 1) && !res("call:bloomcache.hasCached#0", 0)) ==> called("invoke:Blockstore.Get#0") && result0 == res("invoke:Blockstore.Get#0", 0) && err == res("invoke:Blockstore.Get#0", 1)
+//@   ensures[conclusive_answer_is_not_found] res("call:bloomcache.hasCached#0", 1) && !res("call:bloomcache.hasCached#0", 0) ==> result0 == nil && err != nil
+//@   site[asks_for_k] invoke:Blockstore.Get : arg0 == b.blockstore && arg2 == k
+//@ func (*bloomcache).DeleteBlock
+//@   prop C02
+//@   arith int
+//@   requires b != nil
+//@   modifies all
+//@   ensures[deletes_unless_conclusively_absent] !(res("call:bloomcache.hasCached#0", 1) && !res("call:bloomcache.hasCached#0", 0)) ==> called("invoke:Blockstore.DeleteBlock#0") && err == res("invoke:Blockstore.DeleteBlock#0", 0)
+//@   site[deletes_k] invoke:Blockstore.DeleteBlock : arg0 == b.blockstore && arg2 == k
+//@ func (*bloomcache).Put
+//@   prop C02
+//@   arith int
+//@   requires b != nil
+//@   modifies all
+//@   ensures[every_successful_put_is_recorded] err == nil ==> called("call:AddTS#0")
+//@   ensures[result_of_the_inner_put] err == res("invoke:Blockstore.Put#0", 0)
+//@   site[records_the_multihash_after_the_put] call:AddTS : arg1 == cidHash(blockCid(bl)) && res("invoke:Blockstore.Put#0", 0) == nil
+//@   site[stores_the_block] invoke:Blockstore.Put : arg0 == b.blockstore && arg2 == bl
+//@ func (*bloomcache).PutMany
+//@   prop C02
+//@   arith int-assumed
+//@   requires b != nil
+//@   modifies all
+//@   site[records_each_block_of_the_batch] call:AddTS : arg1 == cidHash(blockCid(bl)) && res("invoke:Blockstore.PutMany#0", 0) == nil
+//@   loop 0 continue[no_block_skipped] called("call:AddTS#0")
+//@   site[stores_the_batch] invoke:Blockstore.PutMany : arg0 == b.blockstore && arg2 == bs
